@@ -71,3 +71,44 @@ Proof.
     rewrite masks6 by (first [apply Hm; simpl; tauto | reflexivity]);
     cbn [le_bytes app]; rewrite ?app_nil_r; repeat rewrite <- app_assoc; reflexivity.
 Qed.
+
+(* C06, decode direction: the three octets after the six channel-masks of a channel-mask CFList are
+   RFU; what they hold does not reach the decoded value (finding C06-2, fixed by e2c2b92: the decoder
+   used to read octets 12-13 as a seventh mask). *)
+Theorem cflist_masks_rfu_ignored a b :
+  length a = 16%nat -> length b = 16%nat -> nth 15 a 0 = 1 -> nth 15 b 0 = 1 ->
+  firstn 12 a = firstn 12 b -> cflist_unmarshal a = cflist_unmarshal b.
+Proof.
+  intros La Lb Ta Tb E. unfold cflist_unmarshal. rewrite La, Lb, Ta, Tb. cbn [Nat.eqb negb].
+  change (1 =? 1) with true. cbv iota. rewrite !firstn_firstn. cbn [Nat.min]. rewrite E. reflexivity.
+Qed.
+
+(* the decoded value holds at most six masks: the encoder accepts it *)
+Lemma masks_loop_length : forall fuel data p acc,
+  (length (masks_loop data fuel p acc) <= length acc + length p + length data / 2)%nat.
+Proof.
+  induction fuel as [|f IH]; intros data p acc.
+  { generalize (length data / 2)%nat. intros q. destruct data; cbn [masks_loop]; lia. }
+  destruct data as [|x [|y rest]]; cbn [masks_loop];
+    try (match goal with |- (_ <= _ + _ + ?q)%nat => generalize q; intros q'; lia end).
+  assert (D : (length (x :: y :: rest) / 2 = S (length rest / 2))%nat).
+  { cbn [length]. change (S (S (length rest))) with (1 * 2 + length rest)%nat.
+    rewrite Nat.add_comm, Nat.div_add by discriminate. generalize (length rest / 2)%nat. intros q. lia. }
+  rewrite D. clear D.
+  destruct (existsb _ _).
+  - etransitivity; [apply IH|]. rewrite !app_length. cbn [length]. generalize (length rest / 2)%nat. intros q. lia.
+  - etransitivity; [apply IH|]. rewrite !app_length. cbn [length]. generalize (length rest / 2)%nat. intros q. lia.
+Qed.
+
+Theorem cflist_masks_at_most_six c l :
+  cflist_unmarshal c = Ok l -> nth 15 c 0 = 1 ->
+  exists ms, cf_payload l = CFPMasks ms /\ (length ms <= 6)%nat.
+Proof.
+  unfold cflist_unmarshal. destruct (negb (Nat.eqb (length c) 16)); [discriminate|].
+  intros H T. rewrite T in H. change (1 =? 1) with true in H. cbv iota in H. injection H as <-.
+  eexists. split; [reflexivity|].
+  etransitivity; [apply masks_loop_length|]. cbn [length Nat.add].
+  pose proof (firstn_le_length 12 (firstn 15 c)) as L.
+  assert (D : (length (firstn 12 (firstn 15 c)) / 2 <= 12 / 2)%nat) by (apply Nat.div_le_mono; [discriminate|exact L]).
+  exact D.
+Qed.
